@@ -17,7 +17,7 @@ import (
 )
 
 var verifLockFn func(site string, l interface{}, kind string)
-var verifUnlockFn func(l interface{}, kind string)
+var verifUnlockFn func(site string, l interface{}, kind string)
 
 func verifLock(site string, l interface{}, kind string) {
 	if f := verifLockFn; f != nil {
@@ -25,9 +25,9 @@ func verifLock(site string, l interface{}, kind string) {
 	}
 }
 
-func verifUnlock(l interface{}, kind string) {
+func verifUnlock(site string, l interface{}, kind string) {
 	if f := verifUnlockFn; f != nil {
-		f(l, kind)
+		f(site, l, kind)
 	}
 }
 
@@ -122,9 +122,11 @@ func (c *vmConc) onLock(site string, l interface{}, kind string) {
 	<-p.rel
 }
 
-func (c *vmConc) onUnlock(l interface{}, kind string) {
+func (c *vmConc) onUnlock(site string, l interface{}, kind string) {
 	if p := c.cur(); p != nil {
-		p.lks = append(p.lks, vmLk{A: "rel", L: "me", K: kind})
+		p.lks = append(p.lks, vmLk{A: "rel", G: site, L: "me", K: kind})
+		p.at <- site
+		<-p.rel
 	}
 }
 
